@@ -114,7 +114,15 @@ class IterModel:
             raise Unresolved('unknown iterator source ' + name)
         if t[0] == 'agg' and isinstance(t[1], tuple) and t[1][0] == 'adt' and t[1][1] in ('core::ops::Range', 'core::ops::range::Range'):
             a, b = t[2][0], t[2][1]
-            return sym.mk_bin('Sub', b, a)
+
+            def norm(x):
+                # `0 .. it.len()`: the bound is itself an iterator length
+                def f(n):
+                    if n and n[0] == 'call' and n[1] in ('core::iter::ExactSizeIterator::len', 'core::iter::Iterator::count') and n[2]:
+                        return self.length(n[2][0])
+                    return None
+                return rebuild(x, f)
+            return sym.mk_bin('Sub', norm(b), norm(a))
         if t[0] == 'post':
             e = self.calls.get(t[1])
             if e is None:
